@@ -176,6 +176,9 @@ where
     par_for_n(workers(), total, deadline, f)
 }
 
+/// cases one worker thread executes before it is replaced by a fresh one
+pub const LIFE: u64 = 400;
+
 /// `par_for` with an explicit number of slots (real-time scenarios mostly sleep)
 pub fn par_for_n<F>(n: usize, total: u64, deadline: Option<Instant>, f: F) -> u64
 where
@@ -195,6 +198,7 @@ where
                         std::thread::Builder::new()
                             .stack_size(16 << 20)
                             .spawn_scoped(s2, || {
+                                let mut life = 0u64;
                                 loop {
                                     if let Some(d) = deadline {
                                         if Instant::now() > d {
@@ -210,7 +214,10 @@ where
                                     }
                                     let r = f(i);
                                     done.fetch_add(1, Ordering::Relaxed);
-                                    if r == After::RetireThread {
+                                    life += 1;
+                                    // the async runtime keeps per-thread state that grows with
+                                    // every scenario (freed when the thread ends): bounded lives
+                                    if r == After::RetireThread || life >= LIFE {
                                         return false;
                                     }
                                 }
